@@ -4,7 +4,10 @@
    Asserted for every node kind: scope, stack and call depth are back to their entry values on EVERY exit (normal or throwing);
    plus the node's control-flow semantics (order and number of child evaluations, short circuit, branch selection, loop
    exit on break, continue, value of the node), and that a child's exception leaves as the very same object. */
+#ifndef NNODES
 #define NNODES 6
+#endif
+#define matched_before_guard_unknown 0
 #include "node_model.h"
 #define K_BLOCK 1
 #define K_IF 2
@@ -12,20 +15,32 @@
 #define K_AND 4
 #define K_OR 5
 #define K_SCOPELESS_BLOCK 6
+#define K_FOR 7
+#define K_SWITCH 8
+#define K_CASE 9
+#define K_DEFAULT 10
 enum { B_BREAK = B_NKINDS, B_CONTINUE, B_NKINDS2 };
 static int cond_calls, cond_budget; static uint8_t cond_vals[8]; static int cond_throw_at;
 static struct verif_ti ti_break_standin = {0, "*break"}, ti_continue_standin = {0, "*continue"};
 #ifndef TI_BREAK
 #define TI_BREAK ((char*)&ti_break_standin)
+#endif
+#ifndef TI_CONTINUE
 #define TI_CONTINUE ((char*)&ti_continue_standin)
 #endif
 static int evals[NNODES]; static int eval_scope[NNODES];
+static uint8_t eq_bit[3]; static int last_guard = -1; static int n_eq_calls; static char eq_cell[3];
 void F__ZNK10chaiscript4eval13AST_Node_ImplINS0_6TracerIJNS0_18Noop_Tracer_DetailEEEEE4evalERKNS_6detail14Dispatch_StateE(char* sret, char* self, char* st) {
   int idx = (int)((struct node*)self - nodes);
   LOG(100 + idx); evals[idx]++; eval_scope[idx] = scope_depth;
+#if KIND == K_SWITCH
+  if (idx >= 5) last_guard = idx - 5;
+#endif
   int b = behav[idx];
 #if KIND == K_WHILE
   if (idx == 2 && evals[2] > 1) b = B_RET;                 /* the loop body misbehaves on its first run only (keeps the query small) */
+#elif KIND == K_FOR
+  if ((idx == 4 && evals[4] > 1) || (idx == 3 && evals[3] > 1) || (idx == 2 && evals[2] > 1)) b = B_RET;     /* body, step and condition misbehave on their first run only */
 #endif
   if (b == B_RET) { ((struct BV*)sret)->p = valpool[idx]; ((struct BV*)sret)->pn = 0; return; }
   if (b == B_BREAK) { thrown_obj = __VERIF_throw_new(TI_BREAK, 8); thrown_kind = b; return; }
@@ -38,6 +53,14 @@ uint8_t GET_BOOL(char* bv, char* st) {
   if (i >= cond_budget) return 0;                          /* loops are bounded: the condition turns false after cond_budget evaluations */
   return cond_vals[i & 7] & 1;
 }
+#if KIND == K_SWITCH
+/* the == dispatched for a case label: a recorder whose result is an oracle bit per case */
+void CALL_FUNCTION(char* sret, char* self, uint64_t nlen, char* nptr, char* loc, char* params, char* conv) {
+  n_eq_calls++; __CPROVER_assert(nlen == 2 && nptr[0] == '=' && nptr[1] == '=', "C03: a case label is compared with ==");
+  __CPROVER_assert(last_guard >= 0 && last_guard < 3, "C03: the label was evaluated before it is compared");
+  ((struct BV*)sret)->p = &eq_cell[last_guard < 0 ? 0 : last_guard]; ((struct BV*)sret)->pn = 0; }
+uint8_t BOXED_CAST_BOOL(char* bv, char* conv) { char* p = ((struct BV*)bv)->p; int i = p == &eq_cell[0] ? 0 : p == &eq_cell[1] ? 1 : 2; return eq_bit[i]; }
+#endif
 void NEW_SCOPE(char* h) { scope_depth++; }
 void POP_SCOPE(char* h) { scope_depth--; }
 static char void_data[8]; static char true_data[8], false_data[8];
@@ -54,10 +77,23 @@ int main(void) {
   node_set_children(0, 1, NCH >= 2 ? 2 : -1, NCH >= 3 ? 3 : -1, -1);
 #elif KIND == K_IF
   node_set_children(0, 1, 2, 3, -1);
+#elif KIND == K_FOR
+  node_set_children(0, 1, 2, 3, 4);
+#elif KIND == K_SWITCH
+  node_set_children(0, 1, 2, NCASE >= 2 ? 3 : -1, NCASE >= 3 ? 4 : -1);
+  for (int i = 0; i < NCASE; i++) { node_set_children(2 + i, 5 + i, -1, -1, -1); unsigned k = nondet_u8() % 3; nodes[2 + i].identifier = k == 0 ? AST_Case : k == 1 ? AST_Default : AST_Noop; eq_bit[i] = nondet_u8() & 1; }
+#elif KIND == K_CASE
+  node_set_children(0, 1, 2, -1, -1);
+#elif KIND == K_DEFAULT
+  node_set_children(0, 1, -1, -1, -1);
 #else
   node_set_children(0, 1, 2, -1, -1);
 #endif
-#if KIND != K_WHILE
+#if KIND == K_FOR
+  for (int i = 1; i <= 3; i++) __CPROVER_assume(behav[i] != B_BREAK && behav[i] != B_CONTINUE);       /* loop-control signals come from the body */
+#elif KIND == K_SWITCH
+  for (int i = 0; i < NNODES; i++) __CPROVER_assume(behav[i] != B_CONTINUE && (behav[i] != B_BREAK || (i >= 2 && i <= 4)));   /* break comes from a case body; continue belongs to an enclosing loop (a foreign exception here) */
+#elif KIND != K_WHILE
   for (int i = 0; i < NNODES; i++) __CPROVER_assume(behav[i] != B_BREAK && behav[i] != B_CONTINUE);   /* outside a loop these are foreign exceptions like any other: covered by B_FOREIGN */
 #else
   __CPROVER_assume(behav[1] != B_BREAK && behav[1] != B_CONTINUE);
@@ -112,6 +148,61 @@ int main(void) {
     else { __CPROVER_assert(!__exc_pending && out.p == void_data, "C03: a loop that ends normally (or by break) yields void and no exception"); __CPROVER_assert(0, "witness: loop ends"); }
     if (body_runs >= 1 && behav[2] == B_BREAK) __CPROVER_assert(0, "witness: break");
     if (body_runs >= 2) __CPROVER_assert(0, "witness: second iteration");
+  }
+#elif KIND == K_FOR
+  { /* reference run of for(init; cond; step) body */
+    int ci = 0, exc = 0, body_runs = 0, cond_evals = 0, step_evals = 0, broke = 0;
+    if (behav[1] != B_RET) exc = 1;
+    for (int it = 0; it < 5 && !exc && !broke; it++) {
+      cond_evals++;
+      if (cond_evals == 1 && behav[2] != B_RET) { exc = 1; break; }
+      if (ci == cond_throw_at) { exc = 1; ci++; break; }
+      int c = (ci < cond_budget) ? (cond_vals[ci & 7] & 1) : 0; ci++;
+      if (!c) break;
+      body_runs++; int b = (body_runs == 1) ? behav[4] : B_RET;
+      if (b == B_BREAK) { broke = 1; break; }
+      if (b != B_RET && b != B_CONTINUE) { exc = 1; break; }
+      step_evals++; if (step_evals == 1 && behav[3] != B_RET) { exc = 1; break; }
+    }
+    __CPROVER_assert(evals[1] == 1, "C03: the init statement of a for loop runs exactly once");
+    __CPROVER_assert(evals[2] == cond_evals && evals[4] == body_runs && evals[3] == step_evals, "C03: for evaluates condition, body, step in this order; continue still runs the step, break ends the loop without it");
+    if (evals[1]) __CPROVER_assert(eval_scope[1] == 1, "C03: the init statement declares into the loop's own scope");
+    if (evals[2]) __CPROVER_assert(eval_scope[2] == 2, "C03: the condition is evaluated in a scope of its own inside the loop's scope");
+    if (evals[4]) __CPROVER_assert(eval_scope[4] == 1, "C03: the body runs in the loop's scope");
+    if (exc) { __CPROVER_assert(__exc_pending, "C10: an exception in init, condition, body or step leaves the loop"); __CPROVER_assert(0, "witness: loop left by exception"); }
+    else { __CPROVER_assert(!__exc_pending && out.p == void_data, "C03: a for loop that ends normally (or by break) yields void"); __CPROVER_assert(0, "witness: loop ends"); }
+    if (broke) __CPROVER_assert(0, "witness: break");
+    if (body_runs >= 2) __CPROVER_assert(0, "witness: second iteration");
+    if (body_runs >= 1 && behav[4] == B_CONTINUE && step_evals >= 1) __CPROVER_assert(0, "witness: continue runs the step");
+  }
+#elif KIND == K_SWITCH
+  { int exc = 0, matched = 0, stop = 0; int exp_body[3] = {0, 0, 0}, exp_guard[3] = {0, 0, 0};
+    if (behav[1] != B_RET) exc = 1;
+    for (int i = 0; i < NCASE && !exc && !stop; i++) {
+      int k = nodes[2 + i].identifier;
+      if (k == AST_Case) {
+        exp_guard[i] = 1; if (behav[5 + i] != B_RET) { exc = 1; break; }
+        if (matched || eq_bit[i]) { exp_body[i] = 1; int b = behav[2 + i]; if (b == B_BREAK) { stop = 1; break; } if (b != B_RET) { exc = 1; break; } matched = 1; }
+      } else if (k == AST_Default) {
+        exp_body[i] = 1; int b = behav[2 + i]; if (b == B_BREAK) { stop = 1; break; } if (b != B_RET) { exc = 1; break; } matched = 1;
+      }
+    }
+    __CPROVER_assert(evals[1] == 1, "C03: the switch value is evaluated once");
+    for (int i = 0; i < NCASE; i++) {
+      __CPROVER_assert(evals[2 + i] == exp_body[i], "C03: switch runs the first matching case and then falls through every following case AND default until a break; default also runs when nothing matched before it");
+      if (nodes[2 + i].identifier == AST_Case && !matched_before_guard_unknown) __CPROVER_assert(evals[5 + i] >= exp_guard[i], "C03: a case label that can still decide is evaluated");
+      if (evals[2 + i]) __CPROVER_assert(eval_scope[2 + i] == 1, "C03: case bodies run inside the switch's scope");
+    }
+    if (exc) { __CPROVER_assert(__exc_pending && __exc_obj == thrown_obj, "C10: an exception in the value, a label or a case body leaves the switch as the very same object"); __CPROVER_assert(0, "witness: switch left by exception"); }
+    else { __CPROVER_assert(!__exc_pending && out.p == void_data, "C03: a switch yields void"); if (stop) __CPROVER_assert(0, "witness: break"); else if (matched) __CPROVER_assert(0, "witness: matched"); else __CPROVER_assert(0, "witness: nothing matched"); }
+    { int fell = 0; for (int i = 0; i + 1 < NCASE; i++) if (exp_body[i] && exp_body[i + 1] && nodes[3 + i].identifier == AST_Default && nodes[2 + i].identifier == AST_Case) fell = 1; if (fell) __CPROVER_assert(0, "witness: fall through into default"); }
+  }
+#elif KIND == K_CASE || KIND == K_DEFAULT
+  { int body = (KIND == K_CASE) ? 2 : 1;
+    __CPROVER_assert(evals[body] == 1 && eval_scope[body] == 1, "C03: a case/default body runs once, in a scope of its own");
+    if (KIND == K_CASE) __CPROVER_assert(evals[1] == 0, "C03: the label of a case is evaluated by the switch, not again by the case");
+    if (behav[body] == B_RET) { __CPROVER_assert(!__exc_pending && out.p == void_data, "C03: a case body yields void"); __CPROVER_assert(0, "witness: body completes"); }
+    else { __CPROVER_assert(__exc_pending && __exc_obj == thrown_obj, "C10: break and exceptions of a case body leave the case as the very same object (break is caught by the switch)"); __CPROVER_assert(0, "witness: body throws"); }
   }
 #endif
   return 0;
